@@ -14,6 +14,7 @@ import (
 	"context"
 	"errors"
 	"fmt"
+	"sync/atomic"
 	"testing"
 	"time"
 
@@ -30,9 +31,20 @@ type vfPlan struct {
 	OptPos      int           `json:"call_option_position"`
 	OtherOpts   int           `json:"other_call_options"`
 	ParentAfter time.Duration `json:"parent_deadline_after,omitempty"`
-	Mode        string        `json:"mode"` // return | cancel-then-return | wait-ctx | pre-cancelled
+	Mode        string        `json:"mode"` // return | cancel-then-return | wait-ctx | pre-cancelled | grid: cancel-then-wait | pre-cancelled-wait
 	Ret         string        `json:"ret"`  // nil | err | panic
+	// grid family
+	ParentKind  string `json:"parent_kind,omitempty"`
+	WorkKind    string `json:"work_kind,omitempty"`
+	ParentValue bool   `json:"parent_value,omitempty"`
+	PanicAfter  bool   `json:"panic_after_wait,omitempty"` // Ret panic: panic only after the context was seen done
 }
+
+// vfCancelSeenPatience: how long an invoker waits for a caller-side cancellation to show up in its
+// context (observation only: the statement speaks about deadlines); shortened after the first miss.
+var vfCancelMissed atomic.Bool
+
+type vfCtxKey struct{}
 
 func vfEff(pl vfPlan) time.Duration {
 	if pl.HasCallOpt {
@@ -56,6 +68,9 @@ type vfObs struct {
 	waited   error  // wait-ctx: ctx.Err() once done
 	waitedAt time.Time
 	cc       *grpc.ClientConn
+	value    bool
+	// cancelMissed: the caller's cancellation did not show up in the invoker's context within the watchdog
+	cancelMissed bool
 }
 
 func vfViol(c *kit.Case, kind, class, what string, w any) {
@@ -80,6 +95,9 @@ func vfOne(c *kit.Case, pl vfPlan, tag string) string {
 		cx, cf := context.WithDeadline(base, parentDl)
 		base = cx
 		cancels = append(cancels, cf)
+	}
+	if pl.ParentValue {
+		base = context.WithValue(base, vfCtxKey{}, tag)
 	}
 	parent, cancel := context.WithCancel(base)
 	defer func() {
@@ -110,6 +128,7 @@ func vfOne(c *kit.Case, pl vfPlan, tag string) string {
 		o.t1 = time.Now()
 		o.seenDl, o.seenOk = ctx.Deadline()
 		o.method, o.req, o.reply, o.nopts, o.cc = m, rq, rp, len(os), conn
+		o.value = ctx.Value(vfCtxKey{}) == any(tag)
 		if r, ok := rp.(*vfReply); ok {
 			r.Tag = tag
 		}
@@ -121,19 +140,34 @@ func vfOne(c *kit.Case, pl vfPlan, tag string) string {
 			} else {
 				o.ctxErr = "nil"
 			}
-		case "wait-ctx":
-			if eff := vfEff(pl); !o.seenOk || o.seenDl.After(o.t1.Add(eff)) {
+		case "wait-ctx", "cancel-then-wait", "pre-cancelled-wait":
+			if pl.Mode == "cancel-then-wait" {
+				cancel()
+			}
+			callerCancelled := pl.Mode == "cancel-then-wait" || pl.Mode == "pre-cancelled-wait"
+			if eff := vfEff(pl); !callerCancelled && (!o.seenOk || (eff > 0 && o.seenDl.After(o.t1.Add(eff)))) {
 				break // no deadline / a deadline later than configured is reported by the oracle: do not sit it out
 			}
-			t := time.NewTimer(30 * time.Second)
+			wd := 30 * time.Second
+			if callerCancelled {
+				wd = 2 * time.Second
+				if vfCancelMissed.Load() {
+					wd = 10 * time.Millisecond
+				}
+			}
+			t := time.NewTimer(wd)
 			select {
 			case <-ctx.Done():
 				o.waited = ctx.Err()
 				o.waitedAt = time.Now()
 			case <-t.C:
+				if callerCancelled {
+					vfCancelMissed.Store(true)
+					o.cancelMissed = true
+				}
 			}
 			t.Stop()
-			if o.waited != nil {
+			if o.waited != nil && !pl.PanicAfter {
 				return o.waited
 			}
 		}
@@ -142,7 +176,7 @@ func vfOne(c *kit.Case, pl vfPlan, tag string) string {
 		}
 		return workErr
 	}
-	if pl.Mode == "pre-cancelled" {
+	if pl.Mode == "pre-cancelled" || pl.Mode == "pre-cancelled-wait" {
 		cancel()
 	}
 	var got error
@@ -199,8 +233,30 @@ func vfOne(c *kit.Case, pl vfPlan, tag string) string {
 	}
 	// (2) the caller observes exactly the invoker's outcome
 	outcome := "complete"
+	callerCancelled := pl.Mode == "cancel-then-wait" || pl.Mode == "pre-cancelled-wait"
+	if o.waited != nil {
+		// the invoker's context may only be done once the caller cancelled or a deadline passed
+		earliest := t0.Add(eff)
+		if hasParentDl && (eff <= 0 || parentDl.Before(earliest)) {
+			earliest = parentDl
+		}
+		c.Obs("zc_context_done_observed", 1)
+		switch {
+		case callerCancelled:
+			if !errors.Is(o.waited, context.Canceled) && !(errors.Is(o.waited, context.DeadlineExceeded) && (eff > 0 || hasParentDl) && !o.waitedAt.Before(earliest)) {
+				vfViol(c, "timeout-result", "not-canceled/"+cfg, "the caller cancelled (no deadline had passed), yet the context error is not Canceled", wit)
+			}
+		default:
+			if (eff > 0 || hasParentDl) && o.waitedAt.Before(earliest) {
+				vfViol(c, "timeout-result-without-expiry", cfg, fmt.Sprintf("the invoker's context was done after %s, before any deadline could have passed (effective timeout %s)", o.waitedAt.Sub(t0), eff), wit)
+			}
+			if !errors.Is(o.waited, context.DeadlineExceeded) {
+				vfViol(c, "timeout-result", "not-deadline-exceeded/"+cfg, "nobody cancelled, yet the context error is not DeadlineExceeded", wit)
+			}
+		}
+	}
 	switch {
-	case pl.Ret == "panic" && o.waited == nil:
+	case pl.Ret == "panic" && (o.waited == nil || pl.PanicAfter):
 		outcome = "panic"
 		if !panicked {
 			vfViol(c, "panic", "lost/"+cfg, "the invoker's panic did not reach the caller", wit)
@@ -214,17 +270,6 @@ func vfOne(c *kit.Case, pl vfPlan, tag string) string {
 		if got != o.waited {
 			vfViol(c, "mixture", "context-error-not-returned/"+cfg, "the invoker returned its context's error, the caller got something else", wit)
 		}
-		// the invoker's context may only be done once a deadline passed (nobody cancelled)
-		earliest := t0.Add(eff)
-		if hasParentDl && parentDl.Before(earliest) {
-			earliest = parentDl
-		}
-		if eff > 0 && o.waitedAt.Before(earliest) {
-			vfViol(c, "timeout-result-without-expiry", cfg, fmt.Sprintf("the invoker's context was done after %s, before any deadline could have passed (effective timeout %s)", o.waitedAt.Sub(t0), eff), wit)
-		}
-		if !errors.Is(o.waited, context.DeadlineExceeded) {
-			vfViol(c, "timeout-result", "not-deadline-exceeded/"+cfg, "nobody cancelled, yet the context error is not DeadlineExceeded", wit)
-		}
 	default:
 		if got != workErr {
 			vfViol(c, "mixture", "error-changed/"+cfg, fmt.Sprintf("the invoker returned %v, the caller got %v", workErr, got), wit)
@@ -234,6 +279,12 @@ func vfOne(c *kit.Case, pl vfPlan, tag string) string {
 		}
 	}
 	c.Obs("zc_outcome_"+outcome, 1)
+	if pl.ParentValue && o.value {
+		c.Obs("zc_caller_value_visible_to_invoker", 1)
+	}
+	if o.cancelMissed {
+		c.Obs("zc_caller_cancel_not_seen_by_invoker", 1)
+	}
 	return outcome
 }
 
@@ -279,9 +330,75 @@ func vfTimerCase(c *kit.Case) {
 	c.Evals(int64(n))
 }
 
+// vfGridCase: caller's context ∈ {no deadline, real deadline earlier than now+timeout, deadline (1 h) later
+// than a real short timeout, already cancelled, cancelled during the call, value-carrying} × invoker ∈
+// {returns at once, honours its context (returns its error once it is done), panics before / after the
+// expiry}; the timeout comes from the default or from the per-call option. (An invoker that ignores its
+// context has no row: the client interceptor legitimately waits for its invoker.)
+func vfGridCase(c *kit.Case) {
+	r := c.R
+	n := 0
+	for _, pk := range []string{"none", "earlier", "later", "cancelled-before", "cancelled-during", "value"} {
+		for _, wk := range []string{"fast", "honours", "panic-before", "panic-after"} {
+			short := time.Duration(1000+r.Intn(5000)) * time.Microsecond
+			far := time.Hour
+			pl := vfPlan{ParentKind: pk, WorkKind: wk, OtherOpts: r.Intn(3), OptPos: r.Intn(3), Ret: kit.Choose(r, []string{"nil", "err"})}
+			base := pk
+			if pk == "value" {
+				pl.ParentValue = true
+				base = kit.Choose(r, []string{"none", "earlier", "later", "later", "cancelled-during"})
+			}
+			var eff time.Duration
+			switch base {
+			case "none":
+				eff = short
+			case "earlier":
+				eff, pl.ParentAfter = kit.Choose(r, []time.Duration{far, 3 * short, 0, -time.Second}), short
+			case "later":
+				eff, pl.ParentAfter = short, far
+			case "cancelled-before", "cancelled-during":
+				eff = kit.Choose(r, []time.Duration{far, far, 0})
+				if r.Bool() {
+					pl.ParentAfter = kit.Choose(r, []time.Duration{far / 2, 2 * far})
+				}
+			}
+			switch r.Intn(3) {
+			case 0:
+				pl.Default = eff
+			case 1:
+				pl.Default, pl.HasCallOpt, pl.CallOpt = 2*far, true, eff
+			default:
+				pl.Default, pl.HasCallOpt, pl.CallOpt = time.Microsecond, true, eff
+			}
+			switch base {
+			case "cancelled-before":
+				pl.Mode = map[string]string{"fast": "pre-cancelled", "honours": "pre-cancelled-wait", "panic-before": "pre-cancelled", "panic-after": "pre-cancelled-wait"}[wk]
+			case "cancelled-during":
+				pl.Mode = map[string]string{"fast": "cancel-then-return", "honours": "cancel-then-wait", "panic-before": "return", "panic-after": "cancel-then-wait"}[wk]
+			default:
+				pl.Mode = map[string]string{"fast": "return", "honours": "wait-ctx", "panic-before": "return", "panic-after": "wait-ctx"}[wk]
+			}
+			if wk == "panic-before" {
+				pl.Ret = "panic"
+			}
+			if wk == "panic-after" {
+				// the invoker sees its context done and panics instead of returning the context's error
+				pl.Ret, pl.PanicAfter = "panic", true
+			}
+			out := vfOne(c, pl, fmt.Sprintf("kg%d-%d", c.Index, n))
+			n++
+			c.Obs("zcg_cells", 1)
+			c.Obs("zcg_"+pk+"_"+out, 1)
+			c.Sig(true, "zrpc-client-grid", pk, wk, pl.Mode, pl.Ret, pl.HasCallOpt, pl.Default > pl.CallOpt, pl.ParentAfter > 0, vfEff(pl) > 0, pl.ParentAfter > vfEff(pl), out)
+		}
+	}
+	c.Evals(int64(n))
+}
+
 func TestVerifC04C(t *testing.T) {
 	logx.Disable()
 	kit.Run(t, "C04", "zrpc-client", kit.N(3000, 40000), vfCase)
 	kit.Run(t, "C04", "zrpc-client-timer", kit.N(300, 5000), vfTimerCase)
+	kit.Run(t, "C04", "zrpc-client-grid", kit.N(400, 5000), vfGridCase)
 	kit.End()
 }
